@@ -217,6 +217,24 @@ def w16_peewee_insert_one_with_id_moves_foreign(tmp):
     return None
 
 
+def w18_peewee_clip_negative_duration(tmp):
+    from aw_datastore import Datastore
+    from aw_datastore.storages import PeeweeStorage
+    ds = Datastore(lambda testing: PeeweeStorage(testing=True, filepath=os.path.join(tmp, "p.db")), testing=True)
+    try:
+        ds.create_bucket("b", "t", "c", "h", created=T0)
+        b = ds["b"]
+        from aw_core.models import Event
+        b.insert(Event(timestamp=T0, duration=timedelta(microseconds=999_600), data={}))
+        got = b.get(-1, T0 + timedelta(seconds=1), None)
+        for e in got:
+            if e.duration < timedelta(0):
+                return f"window read returned an event of negative duration {e.duration.total_seconds()} s"
+    finally:
+        ds.storage_strategy.db.close()
+    return None
+
+
 def w10_migration_loses_events(tmp):
     from aw_datastore.storages import PeeweeStorage, SqliteStorage
     pw = PeeweeStorage(testing=True)
